@@ -50,6 +50,14 @@ def harness(tier, seed):
         for k in range(len(out)):
             out[k] = -0.25 * state[k] + 0.01 * control[0]
 
+    def independent_for(system_, ctrl_, x_):
+        rows_ = 0
+        for start in system_.training_starting_states:
+            ode = run_ode(np.array(start), system_.equations, ctrl_.controller, x_, ctrl_.control_dims,
+                          system_.training_steps, system_.training_time)
+            rows_ += len(ode) - 1
+        return None, rows_
+
     n_seq = 6 if tier == "quick" else 40
     for (system, ctrl) in pairs:
         inst = Instance(system, ctrl)
@@ -153,6 +161,57 @@ def harness(tier, seed):
                             viol.append(("get_differentials-changes-data", info, "second call differs"))
                 if len(samples) < 2:
                     samples.append({"system": system.name, "controller": ctrl.name, "objective": cls.__name__, "trace": trace})
+    # ---- the aggregation on its own: many training cases (the bundled *_111 systems have 111) and large per-case values;
+    # mean, and expm1(mean(log1p(J))) which must not be computed through the product of the (J + 1)
+    for cls in (FigureOfMerit, FigureOfMeritLE):
+        obj = cls(Instance(pairs[0][0], pairs[0][1]), False)
+        for arr in ([800.0] * 111, [770.0 + k for k in range(111)], [1e100] * 4, [0.0] * 5, [1e-12, 1e90, 3.0], [5.0],
+                    [1e3 * (k + 1) for k in range(400)]):
+            a_ = np.array(arr, dtype=float)
+            try:
+                got = float(obj.sum_up_results(a_.copy()))
+            except Exception as ex:     # noqa: BLE001
+                viol.append(("aggregate/raises", {"objective": cls.__name__, "results": arr[:8], "n": len(arr)}, repr(ex)))
+                continue
+            evals += 1
+            want = math.fsum(arr) / len(arr) if cls is FigureOfMerit else math.expm1(math.fsum(math.log1p(v) for v in arr) / len(arr))
+            if not (abs(got - want) <= 1e-9 * max(1.0, abs(want))):
+                viol.append(("aggregate/documented-formula", {"objective": cls.__name__, "results": arr[:8], "n": len(arr)},
+                             f"sum_up_results={got}, documented aggregate {want}"))
+    # ---- a long record: several real-system evaluations with many rows each (more than 300 000 rows in total) are all
+    # kept, and stay the same over a switch to a surrogate and back
+    try:
+        base = STUART_LANDAU_4
+        big_steps = 30001 if tier == "quick" else 60001
+        sb = System(base.name, base.state_dims, base.control_dims, base.state_dim_mod, base.state_dims_in_j, base.gamma,
+                    base.test_starting_states, base.training_starting_states[:3], 50, 2.0, big_steps, 2.0)
+        sb.equations = base.equations
+        cb = linear(sb)
+        ob = FigureOfMerit(Instance(sb, cb), True)
+        ob.initialize()
+        rows_total = 0
+        first = None
+        for k_ in range(4):
+            xk = np.array([0.01 * (k_ + 1)] * cb.param_dims)
+            ob.evaluate(xk)
+            evals += 1
+            _v, r_ = independent_for(sb, cb, xk)
+            rows_total += r_
+            if k_ == 1:
+                sc_, df_ = ob.get_differentials()
+                first = (sc_[0].copy(), df_[0].copy())
+                ob.set_model(model_eq)
+                ob.evaluate(xk)
+                ob.set_raw()
+        sc_, df_ = ob.get_differentials()
+        info = {"system": sb.name, "rows_per_training_case": big_steps - 1, "real_evaluations": 4}
+        if len(sc_) != rows_total or len(df_) != rows_total:
+            viol.append(("collected-data-size/long-record", info, f"{len(sc_)} rows kept, {rows_total} rows simulated on the real system"))
+        elif first is not None and not (np.array_equal(sc_[0], first[0]) and np.array_equal(df_[0], first[1])):
+            viol.append(("collected-data-changed/long-record", info, "the first recorded row is no longer the first"))
+    except Exception as ex:     # noqa: BLE001
+        import traceback
+        viol.append(("long-record/raises", {}, repr(ex) + traceback.format_exc(limit=3)[-300:]))
     seen = set()
     viol = [v for v in viol if not (v[0] in seen or seen.add(v[0]))]
     return {"name": "figure_of_merit_interleaving", "evaluations": evals, "distinct_nontrivial": len(distinct),
